@@ -10,7 +10,7 @@
    `..._repaired_w' the same history on the repaired variant. *)
 From Coq Require Import List Arith NArith Bool ZArith.
 From NngV Require Import Gen.Consts Proto.Common Proto.ReqRepBacktrace Proto.ReqModel Proto.RepModel Proto.XReqModel Proto.XRepModel
-  Proto.ReqRepProofs Proto.ReqProofs Proto.RepProofs Proto.XReqRepProofs.
+  Proto.ReqRepProofs Proto.ReqProofs Proto.RepProofs Proto.XReqRepProofs Proto.ReqIdsProofs.
 Import ListNotations.
 
 (* ---- REQ ---- *)
@@ -103,6 +103,67 @@ Proof.
 Qed.
 Print Assumptions req_state_errors.
 
+(* ---- which ids are registered (live) ---- *)
+(* `registered' above means: the request the context holds NOW.  In every state
+   reachable from req_init (any history of entry points, callbacks, ticks; op_ok: a
+   context number is not opened twice while open) the id map holds, for a context,
+   exactly the id of the request message it currently holds -- whose header is that
+   id.  Ids are allocated at send time, also for requests that never reach the wire
+   (id_alloc: cursor, skip of live ids, wrap -- nni_id_alloc). *)
+Theorem req_registered_ids_are_current : forall fx s id k,
+  req_reach fx s -> lookup id (rq_ids s) = Some k ->
+  exists c r, ctx_get s k = Some c /\ cx_rid c = id /\ cx_req c = Some r /\ pm_hdr r = be32 id /\ cursor_ok id.
+Proof. exact req_registered_is_current. Qed.
+Print Assumptions req_registered_ids_are_current.
+(* hence a request that was abandoned -- send cancelled / timed out / replaced by a
+   new send / its receive cancelled / context closed, before or after it reached the
+   wire; a refused non-blocking send; an answered request -- leaves no id behind: a
+   context without a request message, and a context that is gone, own no id, so a
+   reply naming such an id (ids are consecutive, hence predictable) is discarded
+   (req_discard_cases, first clause) *)
+Theorem req_abandoned_request_leaves_no_id : forall fx s k,
+  req_reach fx s -> (ctx_get s k = None \/ exists c, ctx_get s k = Some c /\ cx_req c = None) ->
+  forall id, lookup id (rq_ids s) <> Some k.
+Proof. exact req_no_request_no_id. Qed.
+Print Assumptions req_abandoned_request_leaves_no_id.
+(* delivery, full form: only to the context whose current request carries the arriving
+   id, after that request has left the send queue, and before any reply was taken *)
+Theorem req_reply_only_current_request : forall fx s p rv m s' outs a b,
+  req_reach fx s -> req_step fx s (PRecvDone p rv m) = (s', outs) -> In (Complete a E_OK (Some b)) outs ->
+  exists id k c r, req_recv (pm_body m) = Some (id, b) /\ ctx_get s k = Some c /\ cx_recv c = Some a /\
+    cx_rid c = id /\ cx_req c = Some r /\ pm_hdr r = be32 id /\ cx_send c = None /\ cx_rep c = None.
+Proof. exact req_reply_current. Qed.
+Print Assumptions req_reply_only_current_request.
+Theorem req_ids_invariant_step : forall fx s o s' outs,
+  ids_inv s -> op_ok s o -> req_step fx s o = (s', outs) -> ids_inv s' /\ tx_ok outs.
+Proof. exact req_step_inv. Qed.
+Print Assumptions req_ids_invariant_step.
+(* whatever header the application leaves on the message: what a step hands to a
+   transport is one request id followed by the body, and the step does not depend on
+   that header at all *)
+Theorem req_wire_is_id_then_body : forall fx s o s' outs p x,
+  req_reach fx s -> op_ok s o -> req_step fx s o = (s', outs) -> In (TranSend p x) outs ->
+  exists id, cursor_ok id /\ pm_hdr x = be32 id /\ wire_of x = be32 id ++ pm_body x.
+Proof. exact req_step_tx. Qed.
+Print Assumptions req_wire_is_id_then_body.
+Theorem req_send_ignores_app_header : forall fx s c a nb h h' b,
+  req_step fx s (PSend c a nb (mkPmsg h b)) = req_step fx s (PSend c a nb (mkPmsg h' b)).
+Proof. exact req_send_header_independent. Qed.
+Print Assumptions req_send_ignores_app_header.
+(* witness (non-vacuity): a send queued for want of a pipe and cancelled; the peer
+   names its never-transmitted id REQ_ID_MIN+1: ignored; the reply to the next request
+   (sent with a 4-byte application header, transmitted as id REQ_ID_MIN+2 ++ body) is
+   delivered once *)
+Theorem req_abandoned_id_witness :
+  let outs := outs_of (snd (req_run fx_repaired req_init w_abandon)) in
+  nth 1 outs [] = [Complete 0%N E_CANCELED None] /\
+  nth 3 outs [] = [Complete 1%N E_OK None; TranSend 1%N (mkPmsg (be32 (REQ_ID_MIN + 2)) [170%N; 2%N])] /\
+  nth 5 outs [] = [TranRecv 1%N; Free (mkPmsg [] [187%N])] /\
+  nth 6 outs [] = [TranRecv 1%N; Free (mkPmsg (be32 (REQ_ID_MIN + 2)) [170%N; 2%N]); Complete 2%N E_OK (Some (mkPmsg [] [188%N]))] /\
+  nth 7 outs [] = [TranRecv 1%N; Free (mkPmsg [] [189%N])].
+Proof. exact req_abandoned_id_w. Qed.
+Print Assumptions req_abandoned_id_witness.
+
 (* ids: what nni_id_alloc hands out is not registered (fresh among live requests)
    and lies in 0x80000000..0xffffffff; the cursor stays in range *)
 Theorem req_id_fresh : forall f ids cur id cur',
@@ -180,6 +241,21 @@ Theorem rep_reply_to_origin_once : forall pf s k c a nb m s' outs p x,
   exists c', rp_get s' k = Some c' /\ rc_bt c' = [] /\ rc_pipe c' = 0%N.
 Proof. exact rep_send_to_origin. Qed.
 Print Assumptions rep_reply_to_origin_once.
+(* rep0_ctx_send begins with nni_msg_header_clear: for ANY header h the application
+   leaves on the reply, what goes to the pipe is backtrace ++ body (at once, or from
+   ctx->saio when the pipe was busy), and the whole step is independent of h *)
+Theorem rep_reply_wire_is_backtrace_then_body :
+  (forall pf s k c a nb h b s' outs p x,
+     rep_ctx_send pf s k c a nb (mkPmsg h b) = (s', outs) -> In (TranSend p x) outs ->
+     p = rc_pipe c /\ pm_hdr x = rc_bt c /\ pm_body x = b /\ wire_of x = rc_bt c ++ b) /\
+  (forall pf s k c a h b s', rep_ctx_send pf s k c a false (mkPmsg h b) = (s', []) ->
+     exists c', rp_get s' k = Some c' /\ rc_saio c' = Some (a, mkPmsg (rc_bt c) b)).
+Proof. split; [exact rep_reply_wire|exact rep_reply_wire_queued]. Qed.
+Print Assumptions rep_reply_wire_is_backtrace_then_body.
+Theorem rep_send_ignores_app_header : forall pf s c a nb h h' b,
+  rep_step pf s (PSend c a nb (mkPmsg h b)) = rep_step pf s (PSend c a nb (mkPmsg h' b)).
+Proof. exact rep_send_header_independent. Qed.
+Print Assumptions rep_send_ignores_app_header.
 Theorem rep_reply_to_origin_queued :
   (forall pf s k c a m s', rep_ctx_send pf s k c a false m = (s', []) ->
      rp_sendq s' = rp_sendq s ++ [(rc_pipe c, k)] /\
